@@ -404,6 +404,21 @@ inductive NodeKind where
   | regular | neutral | cname
   deriving DecidableEq, Repr
 
+/-- `_matches_type_or_its_signature(rdtypes, rdtype, covers)`: the type itself, or an RRSIG (and only an RRSIG — not the
+legacy SIG, type 24) covering one of the types -/
+def matchesTypeOrItsSignature (rdtypes : List Nat) (ty covers : Nat) : Bool :=
+  rdtypes.contains ty || (ty == ConstsC09.rrsigType && rdtypes.contains covers)
+
+/-- `NodeKind.classify(rdtype, covers)` on the full grid -/
+def classifyTC (ty covers : Nat) : NodeKind :=
+  if matchesTypeOrItsSignature ConstsC09.cnameTypes ty covers then .cname
+  else if matchesTypeOrItsSignature ConstsC09.neutralTypes ty covers then .neutral
+  else .regular
+
+/-- may an rdataset of kind `k` be put at a node of kind `n` (`_check_cname_and_other_data`)? -/
+def kindsCoexist (n k : NodeKind) : Bool :=
+  !((n == .cname && k == .regular) || (n == .regular && k == .cname))
+
 /-- `NodeKind.classify(rdtype, covers)` with `covers = NONE` (no RRSIG in the model) -/
 def classifyType (ty : Nat) : NodeKind :=
   if ConstsC09.cnameTypes.contains ty then .cname
